@@ -189,3 +189,12 @@ Proof.
   exists (fun s => match s with O => 6 | _ => 8 end)%nat, [0%nat], [1%nat], [[1; 2; 3; 4; 5; 6; 7; 8]]%nat.
   split; [reflexivity|]. vm_compute. discriminate.
 Qed.
+
+(* the current source slices by the dual spaces and rejects foreign operands through NotImplemented *)
+Lemma cur_recipe : slice_projections_by = DimDual /\ blocked_add_foreign = AddNotImplemented.
+Proof. split; reflexivity. Qed.
+
+Lemma cur_unpack_projections_now : forall (X : Type) dim spaces duals (ps : list (list X)),
+  map (@List.length X) ps = map dim duals ->
+  unpack_projections X slice_projections_by dim spaces duals (pack X ps) = ps.
+Proof. intros. apply cur_unpack_projections; [assumption|left; apply cur_recipe]. Qed.
